@@ -192,8 +192,9 @@ def run(ctx):
         if v is True:
             voids.add(t.lower())
     r.inst("void-list", sample={"voids": sorted(voids)})
-    must = T.VOID_ELEMENTS
-    may = T.VOID_ELEMENTS | T.VOID_OBSOLETE
+    # the tree builder inserts and immediately pops the obsolete ones too (basefont, bgsound, frame, keygen, param)
+    must = T.VOID_ELEMENTS | T.VOID_OBSOLETE
+    may = must
     if not must <= voids or not voids <= may:
         r.violate("void-list", f"is_void_element: missing {sorted(must - voids)}, unexpected {sorted(voids - may)} (can_have_content would disagree with the HTML void-element list)", None)
 
